@@ -95,6 +95,9 @@ class Gen:
         return True
 
     def k(self):
+        # fault scripts: occasionally the key whose hash / equality throws when a fault is armed
+        if getattr(self, 'poison', False) and self.rng.random() < 0.04:
+            return 999
         # occasionally a key outside the universe (never inserted)
         if self.rng.random() < 0.03:
             return self.nkeys + 1 + self.rng.randrange(3)
@@ -390,8 +393,125 @@ def gen_capi_script(seed, cfg, **kw):
     rng = random.Random(seed)
     return CGen(rng, cfg, **kw).generate()
 
+class SpecialGen(Gen):
+    """two-to-four tables: copy / move / assignment / swap / allocator-extended constructors (C11) and, for
+    trivially copyable types, stream round trips between tables of different sizes (C12)"""
+    def __init__(self, rng, cfg, stream=False, **kw):
+        super().__init__(rng, cfg, **kw)
+        self.stream = stream and cfg['simple'] == 1
+        self.state = {0: 'live', 1: 'none', 2: 'none', 3: 'none'}   # none | live | moved
+
+    def live(self):
+        return [t for t, s in self.state.items() if s == 'live']
+
+    def work(self, t, n):
+        for _ in range(n):
+            self.normal_op(t)
+
+    def limit_op(self, t):
+        # limits are copied / swapped between tables: keep every table protected (see Gen.limit_op)
+        r = self.rng
+        if r.random() < 0.5:
+            self.emit(t, 'mhp %s' % r.choice(['5', '6', '7', '8']))
+        else:
+            self.emit(t, 'mlf %s' % r.choice(['1 20', '1 2', '1 4', '1 8', '1 16', '3 4']))
+
+    def special(self):
+        r = self.rng
+        lv = self.live()
+        if not lv:
+            t = r.choice([t for t in self.state if self.state[t] == 'none'] or [0])
+            if self.state[t] == 'none':
+                self.emit(t, 'new %d' % r.choice([0, 1, 4, 8, 16, 33])); self.emit(t, 'mhp 8'); self.state[t] = 'live'
+            return
+        a = r.choice(lv)
+        none = [t for t in self.state if self.state[t] == 'none']
+        others = [t for t in self.state if t != a and self.state[t] in ('live', 'moved')]
+        x = r.randrange(100)
+        if x < 18 and none:
+            b = r.choice(none); self.emit(a, 'copyto %d' % b); self.state[b] = 'live'
+        elif x < 30 and none:
+            b = r.choice(none); self.emit(a, 'moveto %d' % b); self.state[b] = 'live'; self.state[a] = 'moved'
+        elif x < 42 and others:
+            b = r.choice(others); self.emit(a, 'assignto %d' % b); self.state[b] = 'live'
+        elif x < 52 and others:
+            b = r.choice(others); self.emit(a, 'massignto %d' % b); self.state[b] = 'live'; self.state[a] = 'moved'
+        elif x < 68 and [t for t in others if self.state[t] == 'live']:
+            b = r.choice([t for t in others if self.state[t] == 'live']); self.emit(a, 'swap %d' % b)
+        elif x < 76 and none:
+            b = r.choice(none); self.emit(a, 'copyallocto %d %d' % (b, r.randrange(2))); self.state[b] = 'live'
+        elif x < 84 and none:
+            b = r.choice(none); e = r.randrange(2)
+            self.emit(a, 'moveallocto %d %d' % (b, e)); self.state[b] = 'live'; self.state[a] = 'moved'
+        elif x < 92 and len(lv) + len([t for t in self.state if self.state[t] == 'moved']) > 1:
+            self.emit(a, 'destroy'); self.state[a] = 'none'
+        elif none:
+            t = r.choice(none)
+            self.emit(t, 'new %d' % r.choice([0, 1, 4, 8, 16, 33])); self.emit(t, 'mhp 8'); self.state[t] = 'live'
+        for t in [t for t in self.state if self.state[t] == 'moved']:
+            # a moved-from table is only destroyed or assigned to
+            if r.random() < 0.3:
+                self.emit(t, 'destroy'); self.state[t] = 'none'
+
+    def stream_round(self):
+        r = self.rng
+        lv = self.live()
+        if len(lv) < 2:
+            none = [t for t in self.state if self.state[t] == 'none']
+            if none:
+                t = none[0]
+                self.emit(t, 'new %d' % r.choice([0, 1, 2, 4, 8, 16, 32, 64])); self.emit(t, 'mhp 8'); self.state[t] = 'live'
+                self.work(t, r.randrange(0, 12))
+            lv = self.live()
+            if len(lv) < 2: return
+        a, b = r.sample(lv, 2)
+        si = r.randrange(2)
+        self.emit(a, 'lock'); self.emit(a, 'l.trav'); self.emit(a, 'sout %d' % si); self.emit(a, 'l.trav'); self.emit(a, 'unlock')
+        self.emit(b, 'lock'); self.emit(b, 'sin %d' % si); self.emit(b, 'l.trav'); self.emit(b, 'l.rtrav')
+        for _ in range(r.randrange(0, 4)):
+            self.emit(b, 'l.insert %d %d' % (self.k(), self.v()))
+        self.emit(b, 'l.trav'); self.emit(b, 'unlock')
+        self.work(b, r.randrange(2, 10))
+
+    def generate(self):
+        r = self.rng
+        c = self.cfg
+        keys = make_keys(r, self.nkeys + 3, self.style)
+        hdr = ['# profile=%s style=%s nkeys=%d' % ('stream' if self.stream else 'special', self.style, self.nkeys),
+               'cfg %d %d %d %d %d' % (c['spb'], c['lbits'], c['simple'], c['nothrow'], c['destructive'])]
+        for k, h in keys.items():
+            hdr.append('key %d %d' % (k, h))
+        self.emit(0, 'new %d' % r.choice([0, 1, 2, 4, 8, 16, 17, 32]))
+        self.emit(0, 'mhp %d' % r.choice([6, 7, 8]))
+        self.mhp_none = False
+        self.profile = 'grow'
+        n = 0
+        while n < self.nops:
+            n += 1
+            lv = self.live()
+            if lv and r.random() < 0.7:
+                self.work(r.choice(lv), r.randrange(1, 6))
+            elif self.stream and r.random() < 0.6:
+                self.stream_round()
+            else:
+                self.special()
+        for t in self.live():
+            self.emit(t, 'lock'); self.emit(t, 'l.trav'); self.emit(t, 'unlock')
+            for k in range(1, self.nkeys + 1):
+                self.emit(t, 'find %d' % k)
+        return '\n'.join(hdr + self.lines) + '\n'
+
 def gen_script(seed, cfg, **kw):
     rng = random.Random(seed)
+    poison = kw.pop('poison', False) if 'poison' in kw else False
+    if poison:
+        g = Gen(rng, cfg, **kw)
+        g.poison = True
+        return g.generate()
+    prof = kw.get('profile')
+    if prof in ('special', 'stream'):
+        kw = dict(kw); kw.pop('profile')
+        return SpecialGen(rng, cfg, stream=(prof == 'stream'), **kw).generate()
     return Gen(rng, cfg, **kw).generate()
 
 if __name__ == '__main__':
